@@ -358,6 +358,29 @@ def jwsParse (s : List Char) : Res Jws :=
   | .err k => err k
   | .panic => .panic
 
+/-- One entry of the `signatures` array of a JWS in JSON serialisation: its own protected header and
+signature octets (kept as received: `Signature.original`). -/
+structure SigEntry where
+  prot : Bytes
+  sig : Bytes
+  deriving DecidableEq, Repr
+
+/-- A multi-signature JWS: one payload, several signatures. -/
+structure JwsMulti where
+  payload : Bytes
+  sigs : List SigEntry
+  deriving DecidableEq, Repr
+
+/-- `MultiSigner.Sign`: every recipient signs `b64(its protected) "." b64(payload)`. -/
+def jwsSignMulti {SK PK : Type} (P : SigPrim SK PK) (signers : List (SK × Bytes)) (payload : Bytes) : JwsMulti :=
+  { payload := payload,
+    sigs := signers.map fun s => { prot := s.2, sig := P.sign s.1 (signingInput s.2 payload) } }
+
+/-- `JsonWebSignature.Verify`: loop over the signatures; each is checked against the signing input built
+from ITS OWN protected octets as received; the first that verifies returns the payload. -/
+def jwsVerifyMulti {SK PK : Type} (P : SigPrim SK PK) (pk : PK) (o : JwsMulti) : Res Bytes :=
+  if o.sigs.any (fun e => P.verify pk (signingInput e.prot o.payload) e.sig) then ok o.payload else err .generic
+
 /-- ECDSA: the primitive works on `(r, s)`; the library splits the fixed-width octets. -/
 def ecVerify {PK : Type} (size : Nat) (verifyRS : PK → List Char → Nat → Nat → Bool) (pk : PK)
     (m : List Char) (sig : Bytes) : Bool :=
